@@ -528,6 +528,76 @@ where
     }
 }
 
+#[cfg(ferrous_verif)]
+impl<K, V> SkipList<K, V>
+where
+    K: Clone + Ord + Debug + std::hash::Hash + Eq,
+    V: Clone + PartialOrd + Debug,
+{
+    /// Verification hook (read-only): walk every level and check the structural invariants
+    /// the sorted-set commands rely on. Returns a description of the first violation.
+    pub fn verif_check_invariants(&self) -> std::result::Result<(), String> {
+        let inner = self.inner.read().unwrap();
+        unsafe {
+            // level 0: strictly ordered chain, in bijection with key_index and length
+            let mut level0: Vec<*mut SkipListNode<K, V>> = Vec::new();
+            let mut current = inner.head;
+            while let Some(next) = (&(*current).forward)[0] {
+                if level0.len() > inner.key_index.len() + inner.length + 1 {
+                    return Err("level 0 chain is longer than index and length allow (cycle?)".to_string());
+                }
+                if let Some(&prev) = level0.last() {
+                    if self.compare_nodes(&(*prev).value, &(*prev).key, &(*next).value, &(*next).key) != Ordering::Less {
+                        return Err(format!("level 0 not strictly ordered: ({:?}, {:?}) before ({:?}, {:?})",
+                            (*prev).value, (*prev).key, (*next).value, (*next).key));
+                    }
+                }
+                if self.is_nan(&(*next).value) {
+                    return Err(format!("NaN score stored for {:?}", (*next).key));
+                }
+                match inner.key_index.get(&(*next).key) {
+                    Some(v) if *v == (*next).value => {}
+                    other => return Err(format!("node ({:?}, {:?}) but key_index has {:?}", (*next).value, (*next).key, other)),
+                }
+                level0.push(next);
+                current = next;
+            }
+            if level0.len() != inner.length {
+                return Err(format!("level 0 has {} nodes but length is {}", level0.len(), inner.length));
+            }
+            if inner.key_index.len() != inner.length {
+                return Err(format!("key_index has {} entries but length is {}", inner.key_index.len(), inner.length));
+            }
+            // upper levels: exactly the level-0 nodes whose tower reaches that level, in order
+            for i in 1..MAX_LEVEL {
+                let expected: Vec<*mut SkipListNode<K, V>> = level0.iter().cloned().filter(|n| (**n).forward.len() > i).collect();
+                let mut chain = Vec::new();
+                let mut current = inner.head;
+                while let Some(next) = (&(*current).forward)[i] {
+                    if chain.len() > level0.len() {
+                        return Err(format!("level {} chain longer than level 0 (cycle?)", i));
+                    }
+                    chain.push(next);
+                    if (*next).forward.len() <= i {
+                        return Err(format!("node {:?} linked at level {} beyond its tower", (*next).key, i));
+                    }
+                    current = next;
+                }
+                if chain != expected {
+                    return Err(format!("level {} links {} nodes, towers say {}", i, chain.len(), expected.len()));
+                }
+                if i > inner.level && !chain.is_empty() {
+                    return Err(format!("level {} is populated above the list level {}", i, inner.level));
+                }
+            }
+            if inner.level > 0 && (&(*inner.head).forward)[inner.level].is_none() {
+                return Err(format!("list level {} is empty", inner.level));
+            }
+        }
+        Ok(())
+    }
+}
+
 impl<K, V> Drop for SkipList<K, V> {
     fn drop(&mut self) {
         if let Ok(inner) = Arc::try_unwrap(self.inner.clone()) {
